@@ -5,29 +5,27 @@ PROP = dict(
     functions=[
         "ntp_proto::packet::v5::server_reference_id::RemoteBloomFilter::{new,next_request,handle_response,advance_next_to_request,full_filter}",
         "ntp_proto::packet::v5::extension_fields::{ReferenceIdRequest::{new,decode,to_response,offset,payload_len}, ReferenceIdResponse::{decode,bytes}}",
-        "ntp_proto::packet::v5::server_reference_id::BloomFilter::{new,add_id,contains_id,add,union,as_bytes}",
+        "ntp_proto::packet::v5::server_reference_id::BloomFilter::{new,add_id,contains_id,as_bytes}",
     ],
-    bounds="chunk size c in {4,8,...,512} (one harness each). c34_step_c: ONE handle_response from an arbitrary state satisfying the representation invariant (next_to_request = k*c < 512, an outstanding request names next_to_request, any 512 filter bytes, any filled flag) with an arbitrary answer (any cookie, any length 0..=516, any bytes). c34_inv_c: one full request/answer round through the real next_request / to_response / handle_response from an arbitrary state satisfying the transfer invariant (filter[..next]==server[..next], filled => all equal), arbitrary 512 server bytes. c34_multi_c (c=128,256,512): the whole transfer from new(c). c34_server: any request decoded from 0..=520 payload bytes or built from any (len,offset) pair, any 512 filter bytes. c34_member_*: any 512 filter bytes, any ten 12-bit positions, any other filter. Byte-wise post-conditions are asserted at one arbitrary index (= for all indices).",
-    outside="the server's filter changing between chunk requests (then the client holds a mix, by design); false-positive rate; ServerId::new's random generation (rejection sampling loop)",
+    bounds="c34_step_c (registered: c = 64, 512): ONE handle_response from an arbitrary state satisfying the representation invariant (next_to_request = k*c < 512, an outstanding request names next_to_request, any 512 filter bytes, any filled flag) with an arbitrary answer (any cookie, any length 0..=516, any bytes): accepted iff outstanding, same cookie, length == c; stored at the offset; cursor, filled flag, full_filter. c34_inv_64: one full request/answer round through the real next_request / to_response / handle_response from an arbitrary state satisfying the transfer invariant (filter[..next]==server[..next], filled => all equal), arbitrary 512 server bytes. c34_multi_256: the whole transfer from new(256). c34_server: any request decoded from 0..=520 payload bytes or built from any (len,offset) pair, any 512 filter bytes: answer == filter[offset..offset+len] or None. c34_member_add/def: any 512 filter bytes, any ten 12-bit positions. Byte-wise post-conditions are asserted at one arbitrary index (= for all indices).",
+    outside="NOT VERIFIED IN TIME (same harness functions instantiated for the other chunk sizes, prepared in c34.rs): c34_step_{4,8,16,32,128,256}, c34_inv_{4..512 except 64}, c34_multi_{128,512}; c34_member_merge/union (add(other), union) did not finish in 400 s. The server's filter changing between chunk requests; false-positive rate; ServerId::new's random generation.",
     assumptions=[
-        "representation invariant of RemoteBloomFilter as stated in bounds (established by new(), c34_new, and preserved by every step, c34_step_*)",
-        "c34_req_new: len+offset <= 65535 (u16 sum in ReferenceIdRequest::new; beyond that: candidate finding c34_req_new_kf_u16_wrap)",
+        "representation invariant of RemoteBloomFilter as stated in bounds (established by new(), c34_new, preserved by every step)",
+        "c34_req_new: len+offset <= 65535 (u16 sum in ReferenceIdRequest::new; beyond that: finding, harness c34_req_new_kf_u16_wrap expected to fail)",
         "server id positions < 4096 (type invariant of U12)",
     ],
     stub_notes=["hooks only build/read RemoteBloomFilter/BloomFilter/ServerId from raw fields (remote_from_raw, remote_raw, bloom_from_bytes, server_id_from_raw, refid_request_from_raw)"],
-    harnesses=[H(NP, "c34", "c34_new", "constructor accepts exactly 4,8,...,512; initial state")]
-    + [H(NP, "c34", "c34_step_%d" % c, "one answer, chunk size %d: accepted iff outstanding, same cookie, length == c; stored at the offset; cursor/filled/full_filter" % c,
-         tier=("quick" if c in _QUICK else "thorough"), timeout=400) for c in _CS]
-    + [H(NP, "c34", "c34_inv_%d" % c, "one real request/answer round keeps filter[..next]==server[..next]; filled => equal to the server's 512 bytes (chunk size %d)" % c,
-         tier="thorough") for c in _CS]
-    + [H(NP, "c34", "c34_multi_%d" % c, "whole transfer from new(%d): complete exactly after 512/c answers and equal to the server's filter" % c, tier="thorough") for c in (128, 256, 512)]
-    + [
-        H(NP, "c34", "c34_server", "server answer = exactly filter[offset..offset+len] or None", timeout=400),
-        H(NP, "c34", "c34_req_new", "ReferenceIdRequest::new validates alignment and range"),
-        H(NP, "c34", "c34_req_new_kf_u16_wrap", "EXPECTED TO FAIL: len+offset > 65535 wraps (release) / panics (dev) in ReferenceIdRequest::new", tier="thorough"),
-        H(NP, "c34", "c34_member_add", "add_id then contains_id; exactly the ten bits set", tier="thorough"),
-        H(NP, "c34", "c34_member_def", "contains_id == all ten bits set; empty filter has no members", tier="thorough"),
-        H(NP, "c34", "c34_member_merge", "member survives add(other); add is bytewise OR", tier="thorough"),
-        H(NP, "c34", "c34_member_union", "member survives union; union is bytewise OR", tier="thorough"),
+    harnesses=[
+        H(NP, "c34", "c34_new", 'constructor accepts exactly 4,8,...,512; initial state', timeout=900),  # measured 2 s CBMC under load
+        H(NP, "c34", "c34_step_64", 'one answer, chunk size 64: accepted iff outstanding, same cookie, length == c; stored at the offset; cursor/filled/full_filter', timeout=900),  # measured 72 s CBMC under load
+        H(NP, "c34", "c34_step_512", 'one answer, chunk size 512: accepted iff outstanding, same cookie, length == c; stored at the offset; cursor/filled/full_filter', timeout=900),  # measured 91 s CBMC under load
+        H(NP, "c34", "c34_inv_64", "one real request/answer round keeps filter[..next]==server[..next]; filled => equal to the server's 512 bytes (chunk size 64)", tier="thorough", timeout_thorough=3600),  # measured 116 s CBMC under load
+        H(NP, "c34", "c34_multi_256", "whole transfer from new(256): complete exactly after 512/c answers and equal to the server's filter", tier="thorough", timeout_thorough=3600),  # measured 141 s CBMC under load
+        H(NP, "c34", "c34_server", 'server answer = exactly filter[offset..offset+len] or None', timeout=900),  # measured 49 s CBMC under load
+        H(NP, "c34", "c34_req_new", 'ReferenceIdRequest::new validates alignment and range', timeout=900),  # measured 0 s CBMC under load
+        H(NP, "c34", "c34_member_add", 'add_id then contains_id; exactly the ten bits set', tier="thorough", timeout_thorough=3600),  # measured 284 s CBMC under load
+        H(NP, "c34", "c34_member_def", 'contains_id == all ten bits set; empty filter has no members', tier="thorough", timeout_thorough=3600),  # measured 112 s CBMC under load
     ],
+    # prepared in the harness crate but NOT registered (did not finish / not re-verified in time / expected to fail):
+    # c34_step_4, c34_step_8, c34_step_16, c34_step_32, c34_step_128, c34_step_256, c34_inv_4, c34_inv_8, c34_inv_16, c34_inv_32, c34_inv_128, c34_inv_256, c34_inv_512, c34_multi_128, c34_multi_512, c34_req_new_kf_u16_wrap, c34_member_merge, c34_member_union
 )
